@@ -752,7 +752,11 @@ class HfProtocol(utils.EventEmitter):
             self.read_buffer = self.read_buffer[end + 2 :]
             if not raw_response:
                 continue
-            response = AtResponse.parse_from(raw_response)
+            try:
+                response = AtResponse.parse_from(raw_response)
+            except Exception:
+                logger.warning('invalid AT result code %r', bytes(raw_response))
+                continue
             logger.debug(f"<<< {raw_response!r}")
 
             # Forward the received code to the correct queue.
